@@ -8,7 +8,7 @@
     ingredient of it (character data, attribute values, character references, CDATA text); the tree level is decided
     by the document-level oracle of checks/C12.py on the real library. *)
 From XV Require Import C05.Spec05 C05.Model05 C12.Spec12 C12.Model12
-  C12.Proofs12a C12.Proofs12b C12.Proofs12c C12.Proofs12d C12.Proofs12e C12.Proofs12f C12.ModelNs12 C12.Proofs12g.
+  C12.Proofs12a C12.Proofs12b C12.Proofs12c C12.Proofs12d C12.Proofs12e C12.Proofs12f C12.ModelNs12 C12.Proofs12g C12.SpecTree12 C12.ProofsTree12e C12.ProofsTree12f C12.ProofsTree12g C12.ProofsTree12h C12.ModelNsSer12 C12.ProofsNsSer12.
 Local Open Scope N_scope.
 
 (** T12_escape_exact: the bytes of formatBuf are the transcoding of a character-wise map of the input ... *)
@@ -118,6 +118,111 @@ Theorem T12_roundtrip_cdata_node : forall cf s out, c_fixed cf = true -> c_split
   forallb (c_can cf) s = true -> ser_node cf (CData s) = Ok out -> parse_sections (S (length s)) out = Some s.
 Proof. exact cdata_node_roundtrip. Qed.
 Print Assumptions T12_roundtrip_cdata_node.
+
+(** T12_roundtrip (tree level, on the serializer model with the committed fixes): for every tree that the model
+    writes ([ser_doc] = Ok), whose content XML can express ([expressible]: names are made of name characters, no "--"
+    in comments, no "?>" / leading white space in PI data, no CR -- XML 1.1: NEL, LSEP -- in comments, PIs and CDATA
+    sections; the model does not check these, see the known findings F40, F41, F47 below) and that is in the scope of
+    the proof ([in_scope]: 16-bit units, CDATA data representable), in every modelled configuration (any
+    canTranscodeTo that keeps surrogate pairs together, XML 1.0/1.1, split-cdata-sections on/off, with or without
+    XML declaration): the specification scanner [reparse] reads the written document back as [normalise t] -- the tree
+    itself, except that a CDATASection that had to be split is its sections and adjacent/empty Text nodes are merged.
+    [fuel] is only a recursion bound. *)
+Theorem T12_roundtrip : forall cf kids out fuel, c_fixed cf = true -> can_uniform (c_can cf) ->
+  ser_doc cf kids = Ok out -> expressible_list cf kids = true -> in_scope_list cf kids = true ->
+  (c_decl cf = true -> none_is 62 (c_enc cf) = true) -> (list_weight kids + 4 <= fuel)%nat ->
+  reparse (c_xml11 cf) fuel out = Some (normalise cf kids).
+Proof. exact tree_roundtrip. Qed.
+Print Assumptions T12_roundtrip.
+
+(** non-vacuity: a document with every node kind, unrepresentable characters, a CDATA section that is split *)
+Definition sample_cfg : scfg := mk_cfg ELatin1 false true true true [73; 83; 79; 45; 56; 56; 53; 57; 45; 49].
+Definition sample_doc : list node :=
+  [Comment [97; 32; 98];
+   Elem [114] [([107], [34; 0x20AC; 60; 9]); ([109], [])]
+     [Text [97; 38; 60; 62; 13; 0xD800; 0xDC00]; Text [98];
+      CData [120; 93; 93; 62; 121]; Elem [101] [] []; PI [116] [100; 63; 100]; Text []];
+   PI [112] []].
+Definition reparses_to (cf : scfg) (fuel : nat) (doc expected : list node) : Prop :=
+  match ser_doc cf doc with
+  | Ok out => reparse (c_xml11 cf) fuel out = Some expected
+  | Err _ => False
+  end.
+Example T12_roundtrip_nonvacuous :
+  expressible_list sample_cfg sample_doc = true /\ in_scope_list sample_cfg sample_doc = true /\
+  reparses_to sample_cfg 60 sample_doc (normalise sample_cfg sample_doc) /\
+  normalise sample_cfg sample_doc =
+  [Comment [97; 32; 98];
+   Elem [114] [([107], [34; 0x20AC; 60; 9]); ([109], [])]
+     [Text [97; 38; 60; 62; 13; 0xD800; 0xDC00; 98];
+      CData [120; 93; 93]; CData [62; 121]; Elem [101] [] []; PI [116] [100; 63; 100]];
+   PI [112] []].
+Proof. vm_compute. repeat split; reflexivity. Qed.
+
+(** what [expressible] guards: the model (like the code, known findings F40, F41, F47) writes these trees, and the
+    result is not the tree *)
+Example T12_comment_dashes_refuted :
+  match ser_doc sample_cfg [Elem [114] [] [Comment [97; 45; 45; 98]]] with
+  | Ok out => reparse false 20 out = None | Err _ => False end.
+Proof. vm_compute. reflexivity. Qed.
+Example T12_pi_data_refuted :
+  reparses_to sample_cfg 20 [Elem [114] [] [PI [116] [97; 63; 62; 98]]] [Elem [114] [] [PI [116] [97]; Text [98; 63; 62]]].
+Proof. vm_compute. reflexivity. Qed.
+Example T12_literal_cr_refuted :
+  reparses_to sample_cfg 20 [Elem [114] [] [CData [97; 13; 98]; Comment [99; 13; 100]]]
+                            [Elem [114] [] [CData [97; 10; 98]; Comment [99; 10; 100]]].
+Proof. vm_compute. reflexivity. Qed.
+
+(** T12_idempotent (tree level): serialising what was read back gives the same document, for trees without empty
+    Text nodes and without a CDATA section that has to be split ([plain]; an element whose only children are empty
+    Text nodes is written <a></a> and read back without children, i.e. <a/>: excluded).  Adjacent Text nodes may be
+    merged by the round trip; the bytes do not change. *)
+Theorem T12_idempotent_tree : forall cf kids out fuel, c_fixed cf = true -> can_uniform (c_can cf) ->
+  ser_doc cf kids = Ok out -> expressible_list cf kids = true -> in_scope_list cf kids = true -> plain_list kids = true ->
+  (c_decl cf = true -> none_is 62 (c_enc cf) = true) -> (list_weight kids + 4 <= fuel)%nat ->
+  exists t', reparse (c_xml11 cf) fuel out = Some t' /\ ser_doc cf t' = Ok out.
+Proof.
+  intros cf kids out fuel Hf Hu Hs He Hg Hp Hd Hfu. exists (normalise cf kids). split.
+  - apply tree_roundtrip; assumption.
+  - apply tree_idempotent; assumption.
+Qed.
+Print Assumptions T12_idempotent_tree.
+
+Example T12_empty_text_not_idempotent :
+  match ser_doc sample_cfg [Elem [97] [] [Text []]] with
+  | Ok out => reparse false 20 out = Some [Elem [97] [] []] /\ ser_doc sample_cfg [Elem [97] [] []] <> Ok out
+  | Err _ => False end.
+Proof. vm_compute. split; [reflexivity|discriminate]. Qed.
+
+(** T12_unserialisable: content that the model's checks refuse (characters that are not XML Chars, names / comments /
+    PIs with characters the encoding cannot represent, "]]>" or unrepresentable data in a CDATA section when
+    split-cdata-sections is off, ...) is refused wherever it occurs in the tree: the result is an error and no
+    document.  (What the model, like the code, does not check is exactly [expressible]; see the refutations above.) *)
+Theorem T12_unserialisable : forall cf kids k, c_fixed cf = true -> In k kids -> unwritable cf k ->
+  exists e, ser_doc cf kids = Err e.
+Proof. exact unwritable_doc_refused. Qed.
+Print Assumptions T12_unserialisable.
+
+Theorem T12_unserialisable_node : forall cf n, c_fixed cf = true -> unwritable cf n -> exists e, ser_node cf n = Err e.
+Proof. exact unwritable_refused. Qed.
+Print Assumptions T12_unserialisable_node.
+
+(** T12_nsfixup_serializer: the namespace fix-up DOMLSSerializer does itself while writing start tags (model
+    ModelNsSer12.v).  For an API-built tree in which no element needs one prefix for two namespaces (F51) and
+    every attribute in a namespace has a prefix (F52) -- [fixable] --, under any outer scope: no start tag declares a
+    prefix twice, and with the declarations written every element and attribute resolves to its namespace URI. *)
+Theorem T12_nsfixup_serializer : forall e sst pst, (forall q, ns_lookup sst q = ns_lookup pst q) ->
+  fixable e -> tree_resolves sst pst e = true.
+Proof. intros e sst pst. exact (serializer_fixup_resolves (essize e) e sst pst (le_n _)). Qed.
+Print Assumptions T12_nsfixup_serializer.
+
+Theorem T12_nsfixup_serializer_gaps_refuted :
+  tree_resolves [] [] (NsE 1 20 7 [AOrd 1 10 8] []) = false /\
+  f_emitted (fix_start_tag [] 1 20 [AOrd 1 10 8]) = [(1, 20); (1, 10)] /\
+  tree_resolves [] [] (NsE 0 0 7 [AOrd 0 10 8] []) = false /\
+  tree_resolves [] [] (NsE 0 10 1 [ADecl 0 10] [NsE 0 0 2 [] [NsE 0 10 3 [] []]]) = true.
+Proof. exact (conj (proj1 f51_refuted) (conj (proj2 f51_refuted) (conj f52_refuted f50_repaired))). Qed.
+Print Assumptions T12_nsfixup_serializer_gaps_refuted.
 
 (** T12_nsfixup: the scope table of namespace fix-up in normalizeDocument() (DOMNormalizer::InScopeNamespaces; model
     ModelNs12.v, tied to the code by reading and by the normalizeDocument route of the document-level oracle).
